@@ -51,10 +51,14 @@ ASSUMPTIONS = [
 RULE = ("one case = one real generator call (mask or return_acs) or one kernel call compared with the model; generators x modes "
         "x ranks 3..5 x rows/cols from {8..80} incl. odd, even, non-square; non-trivial = a generator call that returned a mask "
         "with at least two rows and columns (kernels: a non-degenerate input); distinct = distinct protocol line")
-PENDING_FINDINGS: list[str] = []
-EXTRA_LEAN_MODULES = ['DirectVerif.Lemmas.C04List', 'DirectVerif.Lemmas.C06Assemble', 'DirectVerif.Lemmas.C04Loops']
+PENDING_FINDINGS: list[str] = ["generator-crashes/VariableDensityPoisson/active-list-overrun"]   # C07 known finding, same key
+EXTRA_LEAN_MODULES = ["DirectVerif.Lemmas.C04List", "DirectVerif.Lemmas.C06Assemble", "DirectVerif.Lemmas.C04Loops",
+                      "DirectVerif.Lemmas.C04Interior"]
 
 _worker: G.Worker | None = None
+_fe_worker: G.Worker | None = None          # bounds-checked front-end kernels, for calls that can overrun `_poisson`
+CRASH_KEY = "generator-crashes/{gen}"
+OVERRUN_KEY = "generator-crashes/VariableDensityPoisson/active-list-overrun"
 _cache: dict[str, dict] = {}
 TIMEOUT = 20.0
 
@@ -69,6 +73,15 @@ def worker() -> G.Worker:
 
 _hangs: dict[str, int] = {}
 HANG_LOG: list = []
+CRASH_LOG: list = []
+
+
+def fe_worker() -> G.Worker:
+    global _fe_worker
+    if _fe_worker is None:
+        _fe_worker = G.Worker(env={"VERIF_FORCE_FRONTEND": "1"})
+        atexit.register(_fe_worker.close)
+    return _fe_worker
 
 
 def run(spec: dict) -> dict:
@@ -79,15 +92,37 @@ def run(spec: dict) -> dict:
         who = spec.get("op") or spec.get("gen")
         if _hangs.get(who, 0) >= 1:
             return {"ok": False, "err": "SkippedAfterHang", "msg": f"{who} hung twice before"}
-        _cache[k] = worker().run(spec, TIMEOUT)
+        import time as _t
+        _t0 = _t.time()
+        _cache[k] = (fe_worker() if G.risky(spec) else worker()).run(spec, 60.0 if G.risky(spec) else TIMEOUT)
+        _cache[k]["_dt"] = round(_t.time() - _t0, 2)
+        r = _cache[k]
+        if r.get("died") or (G.risky(spec) and r.get("err") == "IndexError" and "out of bounds" in r.get("msg", "")):
+            r["crash"] = True
+            CRASH_LOG.append((spec, r))
         if _cache[k].get("hang"):
             _hangs[who] = _hangs.get(who, 0) + 1
             HANG_LOG.append((spec, _cache[k]))
     return _cache[k]
 
 
+def crash_key(spec: dict) -> str:
+    if spec.get("gen") == "VariableDensityPoisson" and spec.get("extra", {}).get("max_attempts", 10) > 10:
+        return OVERRUN_KEY
+    return CRASH_KEY.format(gen=spec.get("op") or spec.get("gen"))
+
+
 def hang_violations(seen: set):
-    """every watchdog timeout observed so far (in any stage) is a finding with its arguments"""
+    """every watchdog timeout and every crash (worker process killed / bounds-checked kernel overrun) observed so
+    far, in any stage, is a finding with its arguments"""
+    for spec, res in CRASH_LOG:
+        key = crash_key(spec)
+        if key not in seen:
+            seen.add(key)
+            how = ("the process running the call died" if res.get("died") else
+                   f"bounds-checked _poisson kernel: {res.get('err')}: {res.get('msg')}")
+            yield Violation(key, f"{spec.get('gen')} {spec.get('extra', {})} shape {spec.get('shape')}: {how}",
+                            {"op": "crash", "spec": spec, "observed": how})
     for spec, res in HANG_LOG:
         key = "hang-" + str(spec.get("op") or spec.get("gen"))
         if key not in seen:
@@ -287,11 +322,13 @@ def generator_cases(ctx: Ctx, per_gen: int, acs: bool):
         for k in range(per_gen):
             mode = modes[k % len(modes)]
             ranks = [4, 5] if mode != "static" else [3, 4, 5]
-            spec = G.sample_case(rng, name, mode=mode, rank=ranks[(k // len(modes)) % len(ranks)], multi=0.3)
+            spec = G.sample_case(rng, name, mode=mode, rank=ranks[(k // len(modes)) % len(ranks)], multi=0.3, options=0.4)
             if spec is None:
                 continue
             if name in ("Radial", "Spiral") and rng.random() < 0.4 and not isinstance(spec["acc"], list):
                 spec["cf"] = None      # CIRCUS without centre fraction: largest sampled disc search
+            if acs and G.risky(spec):
+                spec["extra"]["max_attempts"] = 5
             for racs in ([False, True] if acs else [False]):
                 s = dict(spec, return_acs=racs)
                 res = run(s)
@@ -305,7 +342,8 @@ def generator_cases(ctx: Ctx, per_gen: int, acs: bool):
                     continue
                 a = answer(res)
                 yield {"line": ln, "impl": (lambda a=a: a), "nontrivial": res.get("ok", False),
-                       "bucket": f"gen/{name}/{mode}/" + ("acs" if racs else "mask")}
+                       "bucket": f"gen/{name}/{mode}/" + ("acs" if racs else "mask") + ("+opts" if s.get("extra") else "")
+                                 + ("+build" if s.get("via_build") else "")}
 
 
 def malformed_cases(ctx: Ctx, n: int):
@@ -435,6 +473,58 @@ def kernel_cases(ctx: Ctx):
             a = answer(res)
         yield {"line": line("bisect", [n * 2 ** 40, 4000], script), "impl": (lambda a=a: a), "nontrivial": len(script) > 1,
                "bucket": "kernel/bisection/" + ("returns" if res.get("ok") else "raises")}
+    # ---- k-t grid helpers (KtBaseMaskFunc static methods) and the CIRCUS perimeter ordering
+    KB = S.KtBaseMaskFunc
+    for _ in range(ctx.budget(60, 600)):
+        row = rng.choice([1, 2, 3, 5, 8, 9, 12])
+        idx = rng.randint(-2 * row, 6 * row)
+
+        def impl(idx=idx, row=row):
+            x, y = KB.linear_indices_to_2d_coordinates(np.array([idx]), row)
+            return "ok " + ints([x[0], y[0]])
+        yield {"line": line("linear2d", [idx, row]), "impl": _guard(impl), "nontrivial": row > 1, "bucket": "kernel/kt/linear2d"}
+    for _ in range(ctx.budget(60, 600)):
+        row, nrows = rng.choice([2, 3, 5, 8, 9]), rng.choice([1, 2, 3, 4])
+        empties = sorted(rng.sample(range(1, row * nrows + 1), rng.randint(0, row * nrows)))
+        target = rng.randint(0, row * nrows + 1)
+
+        def impl(target=target, empties=empties, row=row):
+            return "ok " + ints([KB.find_nearest_empty_location(float(target), np.array(empties, dtype=int), row)])
+        same_row = [e for e in empties if -(-e // row) == -(-target // row)]
+        yield {"line": line("nearest", [target, row], empties), "impl": _guard(impl), "nontrivial": len(same_row) > 1,
+               "bucket": "kernel/kt/find_nearest/" + ("none" if not empties else "same-row" if same_row else "other-row")}
+    for _ in range(ctx.budget(60, 600)):
+        ny, nt = rng.choice([4, 5, 8, 9, 12, 13]), rng.choice([1, 2, 3, 4, 5])
+        k = rng.randint(1, max(1, (ny * nt * 2) // 3))
+        lo_p, lo_t = -((ny + 1) // 2) if rng.random() < 0.5 else -(ny // 2), -((nt + 1) // 2) if rng.random() < 0.5 else -(nt // 2)
+        ph = [rng.randint(lo_p, ny // 2 - 1) for _ in range(k)]
+        ti = [rng.randint(lo_t, max(lo_t, nt // 2 - 1)) for _ in range(k)]
+        if rng.random() < 0.3:      # no duplicates at all
+            seen, ph2, ti2 = set(), [], []
+            for a, b in zip(ph, ti):
+                if (a, b) not in seen:
+                    seen.add((a, b)); ph2.append(a); ti2.append(b)
+            ph, ti = ph2, ti2
+        ndup = len(ph) - len(set(zip(ph, ti)))
+
+        def impl(ph=ph, ti=ti, ny=ny, nt=nt):
+            p, t = KB.resolve_duplicates_on_kt_grid(np.array(ph), np.array(ti), ny, nt)
+            return "ok " + ints(p.tolist()) + " | " + ints(t.tolist())
+        yield {"line": line("resolve", [ny, nt], ph, ti), "impl": _guard(impl), "nontrivial": ndup > 0,
+               "bucket": "kernel/kt/resolve_duplicates/" + ("dups" if ndup else "nodup")}
+    for side in ([2, 4, 6, 8, 10, 16] if not ctx.thorough else list(range(2, 41, 2))):
+        for sq in range(side // 2):
+            def impl(side=side, sq=sq):
+                return "ok " + ints([v for rc in S.CIRCUSMaskFunc.get_square_ordered_idxs(side, sq) for v in rc])
+            yield {"line": line("square", [side, sq]), "impl": _guard(impl), "nontrivial": side - 2 * sq > 2,
+                   "bucket": "kernel/circus/square_ordered"}
+    # ---- uniform_range=True
+    for name in G.GENERATORS:
+        res = run({"gen": name, "mode": "dynamic", "shape": [2, 9, 12, 2], "acc": 4, "cf": 3 if G.takes_count(name) else 0.1,
+                   "seed": 5, "return_acs": False, "via_build": True, "extra": {"uniform_range": True}})
+        a = "ok" if res.get("ok") else answer(res)
+        yield {"line": line("call_uniform", [gid(name)]), "impl": (lambda a=a: a), "nontrivial": False,
+               "bucket": "kernel/uniform_range"}
     # ---- build_masking_function: name -> class, kwargs filtering
     for name in G.GENERATORS:
         for mode in G.MODES:
@@ -510,7 +600,7 @@ def oracle(ctx: Ctx, deep: bool = False):
         for k in range(per_gen):
             mode = modes[k % len(modes)]
             feas = rng.random() < 0.85
-            spec = G.sample_case(rng, name, mode=mode, feasible_only=feas, multi=0.25)
+            spec = G.sample_case(rng, name, mode=mode, feasible_only=feas, multi=0.25, options=0.4)
             if spec is None:
                 continue
             if name in ("Radial", "Spiral") and rng.random() < 0.3 and not isinstance(spec["acc"], list):
@@ -520,13 +610,14 @@ def oracle(ctx: Ctx, deep: bool = False):
                 res = run(s)
                 ctx.count(("oracle", json.dumps(s, sort_keys=True)), bool(res.get("ok")),
                           bucket=f"oracle/{name}/" + ("feasible" if feas else "infeasible") + "/"
-                                 + ("returned" if res.get("ok") else "hang" if res.get("hang") else "raised-" + res.get("err", "?")))
+                                 + ("returned" if res.get("ok") else "hang" if res.get("hang") else "crash" if res.get("crash")
+                                    else "raised-" + res.get("err", "?")))
                 for key, what in check_geometry(s, res):
                     if key not in seen:
                         seen.add(key)
                         yield Violation(key, what, {"op": "generator", "spec": s, "observed": {k2: res.get(k2) for k2 in
                                                                                               ("ok", "shape", "dtype", "err", "msg", "hang")}})
-                if feas and not res.get("ok") and not res.get("hang") and res.get("err") != "SkippedAfterHang":
+                if feas and not res.get("ok") and not res.get("hang") and not res.get("crash") and res.get("err") != "SkippedAfterHang":
                     documented = (name == "VariableDensityPoisson" and res.get("err") == "ValueError"
                                   and "Cannot generate mask" in res.get("msg", ""))
                     if not documented:
@@ -535,6 +626,29 @@ def oracle(ctx: Ctx, deep: bool = False):
                             seen.add(key)
                             yield Violation(key, f"{name} raises {res.get('err')}: {res.get('msg')} for a feasible pair",
                                             {"op": "generator", "spec": s, "observed": res.get("err"), "msg": res.get("msg")})
+    # uniform_range=True is documented as not implemented: NotImplementedError wherever the option exists
+    for name in G.GENERATORS:
+        for via in (False, True):
+            if name == "VariableDensityPoisson" and not via:
+                continue          # the constructor has no such parameter; build_masking_function filters it out
+            mode = "dynamic" if G.is_kt(name) else rng.choice(G.MODES)
+            s = {"gen": name, "mode": mode, "shape": [2, 9, 12, 2], "acc": 4, "cf": 3 if G.takes_count(name) else 0.1, "seed": 5,
+                 "return_acs": False, "via_build": via, "extra": {"uniform_range": True}}
+            res = run(s)
+            want = "ok" if name == "VariableDensityPoisson" else "NotImplementedError"
+            got = "ok" if res.get("ok") else res.get("err")
+            ctx.count(("uniform_range", name, via), False, bucket=f"oracle/uniform_range/{got}")
+            if got != want and not res.get("hang"):
+                key = f"uniform-range-{name}"
+                if key not in seen:
+                    seen.add(key)
+                    yield Violation(key, f"{name}(uniform_range=True{', via build_masking_function' if via else ''}): {got}, "
+                                    f"documented: {want}", {"op": "generator", "spec": s, "observed": got})
+    # `_poisson` kernel memory safety (bounds-checked front-end): the corpus case of the known active-list overrun
+    # (12x12, max_attempts=30) and whatever the sampled option cases hit
+    run({"gen": "VariableDensityPoisson", "mode": "static", "shape": [12, 12, 2], "acc": 2, "cf": 0.1, "seed": 2,
+         "return_acs": False, "extra": {"max_attempts": 30}})
+    ctx.count(("poisson-overrun-corpus",), True, bucket="oracle/poisson-kernel/bounds-checked")
     # the bisection wrapper driven by a rasteriser whose acceleration crosses the target at a slope that is
     # not a float: the tolerance band is never met, the documented ValueError must be raised (no hang)
     for thr in (16 / 3, 0.1, 7.3):
@@ -580,6 +694,10 @@ def oracle(ctx: Ctx, deep: bool = False):
 
 def replay(rep: dict) -> bool:
     """Re-run a recorded failing case on the implementation; True when it still fails."""
+    if rep.get("op") == "crash":
+        s = rep["spec"]
+        r = (fe_worker() if G.risky(s) else worker()).run(s, 60.0)
+        return bool(r.get("died") or (r.get("err") == "IndexError" and "out of bounds" in r.get("msg", "")))
     if rep.get("op") == "hang":
         return bool(worker().run(rep["spec"], TIMEOUT).get("hang"))
     if rep.get("op") == "bisect-threshold":
